@@ -27,7 +27,7 @@ func (c20) Level() string { return "exploration" }
 func (c20) Procs() int    { return 1 }
 func (c20) Budget(tier string) (int, int) {
 	if tier == "thorough" {
-		return 400000, 900
+		return 4000000, 900
 	}
 	return 12000, 90
 }
